@@ -316,16 +316,19 @@ func (db *DB) OpenTransaction() (*Transaction, error) {
 	// Flush current memdb.
 	if db.mem != nil && db.mem.Len() != 0 {
 		if _, err := db.rotateMem(0, true); err != nil {
+			<-db.writeLockC
 			return nil, err
 		}
 	} else if err := db.compTriggerWait(db.mcompCmdC); err != nil {
 		// Wait for pending memdb compaction: the frozen memdb must be
 		// flushed before the transaction records its sequence number.
+		<-db.writeLockC
 		return nil, err
 	}
 
 	// Wait compaction when certain threshold reached.
 	if err := db.waitCompaction(); err != nil {
+		<-db.writeLockC
 		return nil, err
 	}
 
